@@ -144,7 +144,7 @@ pub async fn check_global(c: &mut Cluster) {
             .collect();
         let holders = holder_set.len();
         // C26: the quorum this commit actually rested on
-        c.oracle.on_commit_quorum(v.id, v.term, holder_set);
+        c.oracle.on_commit_quorum(v.id, v.term, holder_set, voters.iter().copied().collect());
         if holders * 2 <= voters.len() {
             c.oracle.violate(
                 "C09",
